@@ -240,6 +240,57 @@ func stressors(full bool) []VerifyCase {
 			add("padded", pad(sz)+j, "p = 1;\n"+j)
 		}
 	}
+	// bodies of EXACTLY 65525..65545 bytes (measured through the hook; a
+	// statement "true;" is one byte), each jumping construct at the very end,
+	// as the main program and as a function body: refused, or sound and
+	// behaving like the short twin
+	measure := func(script string, fn string) int {
+		r, err := prepared(script, nil, true)
+		if err != nil {
+			return -1
+		}
+		_, main, funcs := r.E.VerifProgram()
+		if fn != "" {
+			return len(funcs[fn].Bytecode)
+		}
+		return len(main)
+	}
+	exactSizes := []int{65533, 65534, 65535, 65536, 65537, 65538}
+	if full {
+		exactSizes = nil
+		for sz := 65520; sz <= 65550; sz++ {
+			exactSizes = append(exactSizes, sz)
+		}
+	}
+	for ji, j := range jumping {
+		if ji >= 5 {
+			break // the last one defines a function itself
+		}
+		for _, inFunction := range []bool{false, true} {
+			wrap := func(body string) string {
+				if inFunction {
+					return "function big() {\n" + body + "\n}\nreturn big();"
+				}
+				return body
+			}
+			fn := ""
+			if inFunction {
+				fn = "big"
+			}
+			base := pad(64000)
+			m0 := measure(wrap(base+j), fn)
+			m1 := measure(wrap(base+"true;\n"+j), fn)
+			if m0 < 0 || m1 != m0+1 {
+				continue // the assumptions about sizes do not hold on this tree: nothing to aim at
+			}
+			for _, sz := range exactSizes {
+				if sz-m0 < 0 {
+					continue
+				}
+				add(fmt.Sprintf("exact-size-%d", sz), wrap(base+strings.Repeat("true;\n", sz-m0)+j), wrap("p = 1;\n"+j))
+			}
+		}
+	}
 	// many distinct constants
 	counts := []int{255, 256, 257, 1000}
 	if full {
